@@ -416,7 +416,7 @@ impl Prop for C16 {
         } else {
             let u = 2 + src.pick(10);
             let start = src.pick(32);
-            (0..u).map(|i| Res::from_index((start + i * 5) % 32)).collect()
+            (0..u).map(|i| Res::classic((start + i * 5) % 32)).collect()
         };
         HUGE.with(|h| h.set(huge));
         let mut tree = gen_tree(src, 0, &universe);
